@@ -49,8 +49,7 @@ def ob_free_evidence_comment_lines():
              rx.z3.Intersect(rx.lang(FRegex.VAR, "match"), cat(rx.z3.Loop(lit(" "), 0, 5), notchars(" "), ANY)),
              cat(cls([c for c in range(128) if chr(c).isalpha() and chr(c) not in "cCdD"]), ANY))
     on_comment = rx.z3.Intersect(ev, FIXED_COMMENT_LINE)
-    known = cat(alt(ci("character"), ci("complex"), ci("class"), ci("double precision"), ci("doubleprecision"),
-                    ci("double complex"), ci("doublecomplex")), ANY)
+    known = cat(alt(ci("character"), ci("complex"), ci("class"), cat(ci("double"), BL, alt(ci("precision"), ci("complex")))), ANY)
     allowed = known if kf_active("C14-fixed-comment-keyword") else rx.EMPTY
     ok, w, _ = rx.subset(on_comment, allowed)
     code = None
